@@ -1,5 +1,6 @@
 // C03 — cell <-> centre bijection and complete enumeration per resolution
 #include "gen.hpp"
+#include <cfenv>
 using namespace vh;
 
 struct Case {
@@ -27,6 +28,20 @@ static void roundtrip(const Case &c) {
     H3Index back = 0;
     e = latLngToCell(&g, res, &back);
     CHECK(e == E_SUCCESS && back == h, "roundtrip", "latLngToCell(cellToLatLng(%016llx)) = %016llx (err %u), centre (%.17g, %.17g)", (unsigned long long)h, (unsigned long long)back, e, g.lat, g.lng);
+    {   // the bijection does not depend on the caller's floating-point rounding direction: a centre is far from every edge, so ulp-level
+        // differences cannot move it to another cell (one case in four, mode chosen by the cell so that replay is exact)
+        static const int RM[3] = {FE_UPWARD, FE_DOWNWARD, FE_TOWARDZERO};
+        uint64_t pick = mix64(h, 0x51ed) & 15;
+        if (pick < 3) {
+            fesetround(RM[pick]);
+            LatLng g2 = {1e9, 1e9};
+            H3Index back2 = 0;
+            H3Error e1 = cellToLatLng(h, &g2), e2 = e1 ? e1 : latLngToCell(&g2, res, &back2);
+            fesetround(FE_TONEAREST);
+            COUNT("roundtrip.under_directed_rounding_mode");
+            CHECK(e2 == E_SUCCESS && back2 == h, "roundtrip-rounding-mode", "under rounding mode %s latLngToCell(cellToLatLng(%016llx)) = %016llx (err %u)", pick == 0 ? "FE_UPWARD" : pick == 1 ? "FE_DOWNWARD" : "FE_TOWARDZERO", (unsigned long long)h, (unsigned long long)back2, e2);
+        }
+    }
     CHECK((isPentagon(h) != 0) == ref::is_pentagon(h), "ispentagon", "isPentagon(%016llx) disagrees with the documented definition", (unsigned long long)h);
     bool pbc = ref::is_pent_bc(ref::unpack(h).bc);
     if (res >= 3 || pbc) NONTRIVIAL();
